@@ -20,7 +20,7 @@ def parse(name):
         return res
     cur = None
     for ln in open(p):
-        m = re.match(r"== ([CEFGHIJ]\d+-[A-Z])", ln)
+        m = re.match(r"== ([CEFGHIJK]\d+-[A-Z])", ln)
         if m:
             cur = m.group(1)
             res.setdefault(cur, {})
@@ -45,11 +45,13 @@ for k, v in parse("matrix_r8.txt").items():
     final[k] = v
 for k, v in parse("matrix_r9.txt").items():
     final[k] = v
-for name in ("matrix_fix.txt", "matrix_fix5.txt", "matrix_fix6.txt", "matrix_fix8.txt", "matrix_fix9.txt"):
+for k, v in parse("matrix_r10.txt").items():
+    final[k] = v
+for name in ("matrix_fix.txt", "matrix_fix5.txt", "matrix_fix6.txt", "matrix_fix8.txt", "matrix_fix9.txt", "matrix_fix10.txt"):
     for k, v in parse(name).items():
         final.setdefault(k, {}).update(v)
 first = {}
-for name in ("matrix3.txt", "matrix4.txt", "matrix_r4.txt", "matrix_r5.txt", "matrix_r6.txt", "matrix_r7.txt", "matrix_r8.txt", "matrix_r9.txt"):
+for name in ("matrix3.txt", "matrix4.txt", "matrix_r4.txt", "matrix_r5.txt", "matrix_r6.txt", "matrix_r7.txt", "matrix_r8.txt", "matrix_r9.txt", "matrix_r10.txt"):
     for k, v in parse(name).items():
         first[k] = v
 summ = json.load(open(os.path.join(V, "seeded", "summaries.json")))
@@ -61,10 +63,10 @@ for d in sorted(os.listdir(os.path.join(V, "seeded"))):
     mp = os.path.join(dd, "meta.json")
     meta = json.load(open(mp)) if os.path.exists(mp) else {}
     notes = open(os.path.join(dd, "author_notes.md")).read() if os.path.exists(os.path.join(dd, "author_notes.md")) else ""
-    if d[0] in "EGHJ":
+    if d[0] in "EGHJK":
         m = re.search(r"PROPERTY:\s*(C\d+)", notes)
         prop = m.group(1) if m else "?"
-        rnd = {"E": 4, "G": 6, "H": 7, "J": 9}[d[0]]
+        rnd = {"E": 4, "G": 6, "H": 7, "J": 9, "K": 10}[d[0]]
     elif d[0] in "FI":
         prop = "C" + d[1:3]
         rnd = {"F": 5, "I": 8}[d[0]]
